@@ -52,8 +52,49 @@ def observe (v : Variant) (s : State) : Json :=
     ("wp_after", jopt styleAfter),
     ("state_changed", Json.bool (decide (r.1 ≠ s)))]
 
+def parseAttrs (j : Json) : Except String Attrs := do
+  let arr ← j.getArr?
+  arr.toList.mapM (fun kv => do
+    let k ← (← kv.getArrVal? 0).getStr?
+    let v ← (← kv.getArrVal? 1).getStr?
+    pure (k.toList, v.toList))
+
+def parseElem (j : Json) : Except String Elem := do
+  let uid ← getStr j "id"
+  let xt ← getStr j "xt"
+  let attrs ← parseAttrs (← j.getObjVal? "attrs")
+  pure ⟨uid, xt, attrs⟩
+
+def parseOp (j : Json) : Except String ReadOp := do
+  let o ← j.getObjValAs? String "o"
+  match o with
+  | "attr" => pure (.attr (← getStr j "u") (← getStr j "k"))
+  | "has" => pure (.has (← getStr j "u"))
+  | "dump" => pure (.dump (← getStr j "u"))
+  | "search" => pure (.search (← getStrList j "xts"))
+  | "refsTo" => pure (.refsTo (← getStr j "u"))
+  | "render" => pure (.render (← getStr j "d"))
+  | _ => throw s!"unknown read op {o}"
+
+def jattrs (a : Attrs) : Json := Json.arr (a.map (fun kv => Json.arr #[jstr kv.1, jstr kv.2])).toArray
+
+def jout : Out → Json
+  | .str o => jopt o
+  | .bool b => Json.bool b
+  | .attrs none => Json.null
+  | .attrs (some a) => jattrs a
+  | .ids l => jstrs l
+  | .pic p => Json.arr (p.map (fun q => Json.mkObj [("uid", jstr q.uid), ("label", jstr q.label),
+      ("symbol", Json.bool q.symbol)])).toArray
+
 def handle (op : String) (j : Json) : Except String Json := do
   match op with
+  | "run" =>
+    let sem ← (← (← j.getObjVal? "sem").getArr?).toList.mapM parseElem
+    let ops ← (← (← j.getObjVal? "ops").getArr?).toList.mapM parseOp
+    let s : State := ⟨sem, []⟩
+    let r := run .repaired s ops
+    pure (Json.mkObj [("outs", Json.arr (r.2.map jout).toArray), ("changed", Json.bool (decide (r.1 ≠ s)))])
   | "factory" =>
     let kind ← j.getObjValAs? String "kind"
     let (s, _) ← factoryState kind j
